@@ -91,7 +91,7 @@ func (m *Manager) connect(recursed bool, closeGen uint64) (err error) {
 				return
 			}
 			activeMu.Unlock()
-			m.onClose(reason, err)
+			m.onClose(reason, err, closeGen)
 		},
 	}
 
